@@ -206,3 +206,28 @@ Proof.
   - intros l Hl. specialize (L1 _ Hl). unfold qltb in L1. apply negb_false_iff in L1. apply Qle_bool_iff in L1. exact L1.
   - intros l Hl. specialize (L2 _ Hl). unfold qltb in L2. apply negb_false_iff in L2. apply Qle_bool_iff in L2. exact L2.
 Qed.
+
+(* ---------------- accepted at most once, with consecutive ids: in every simulation (C04) ---------------- *)
+Definition ids_inv (m : market) (rs : list record) : Prop :=
+  0 <= m_next m /\ accepted_ids rs = map Z.of_nat (seq 0 (Z.to_nat (m_next m))).
+
+Lemma ids_inv_step m rs o m' recs :
+  life_ok m -> gone_mkt m -> ids_inv m rs -> valid_op o -> step_rec m o = Ok (m', recs) -> ids_inv m' (rs ++ recs).
+Proof.
+  intros _ _ [N A] _ E. unfold ids_inv. rewrite accepted_ids_app, A.
+  destruct (step_rec_accepts _ _ _ _ E) as [[-> ->]|[-> ->]].
+  - rewrite app_nil_r. auto.
+  - split; [lia|]. replace (Z.to_nat (m_next m + 1)) with (Z.to_nat (m_next m) + 1)%nat by lia.
+    rewrite seq_app, map_app. simpl. f_equal. f_equal. lia.
+Qed.
+
+Theorem accepted_ids_consecutive_in_every_run c tape batches funds :
+  NoDup (map mc_id (c_markets c)) ->
+  let s := run c tape batches funds in
+  valid_tr s -> forall x, In x (s_markets s) ->
+  accepted_ids (of_mkt (m_id (mk_m x)) (truths (events_of s))) = map Z.of_nat (seq 0 (Z.to_nat (m_next (mk_m x)))).
+Proof.
+  intros N s V x Hx.
+  exact (proj2 (market_invariant_of_every_run ids_inv ids_inv_step (fun m rs v H => H) c tape batches funds N
+                  (fun mc _ => conj (Z.le_refl 0) eq_refl) V x Hx)).
+Qed.
